@@ -21,6 +21,8 @@
 (*     F = the formula under test (a spelling of inp.tree)                   *)
 (*     G = $a + 1     H = $b * 2     X = adversarial text (starts as 1)      *)
 (*     K = $G + 1     R = $X  (reads X, so it may hold errors too)           *)
+(*   (a column whose formula is modified is re-created at the END of the     *)
+(*   generated class, so X's code is followed by the metadata tables' code)  *)
 (*   rows inp.rows = <<<<a, b>>, ...>>.                                      *)
 (* Steps recorded in a case (`out`), each snapshot s = [F, G, H, K, X, R]    *)
 (* with one tagged value per row (Predicate's value domain; an error cell of *)
